@@ -5,11 +5,41 @@ import json, subprocess
 
 HOOK_COMMITS = ["920d73b"]
 
+SHIM = " The shim phase is fault enumeration at the kernel boundary: the package's write/writev/sendfile syscalls go through a policy that shortens transfers (the prefix is really transferred), injects EINTR/EAGAIN and fatal errnos, with an emulated writability edge in plain ET so that no impossible kernel behaviour is manufactured."
+
 TB = ("Trusted base: Go toolchain and runtime, Linux kernel sockets/epoll, the harness's own oracle code; "
       "only executions produced by this run are covered (cases are a fixed list derived from VERIF_SEED).")
 
 # id -> dict(level, text, note, technique, ref)  or  dict(na=reason)
 P = {
+ "C01": dict(level="fault_enumeration", ref="4/C01",
+    technique="history monitor over self-describing payloads (offline stream oracle: whole-call interleaving, program and real-time order, completeness at quiescence) on real sockets + syscall-shim fault injection; spin/deadlock guard; race detector with //go:norace stripped (thorough)",
+    text="Drives real nbio connections (tcp/unix x LT/ET/ONESHOT) with seeded multi-writer programs of Write/Writev/Sendfile against eager, slow, late, stop-and-go and resetting peers, records every call at the API boundary with one logical clock, and checks the byte stream the peer received against the calls: each accepted call exactly once as one contiguous run, program and real-time order kept, complete when the connection stayed open, a valid prefix after an error close, nil error => full length." + SHIM,
+    note=TB),
+ "C02": dict(level="exploration", ref="4/C02",
+    technique="history monitor (per-connection callback log with inside-counter, self-describing streams / numbered datagrams compared at quiescence) + read stuck-state predicate (FIONREAD, read-event counter, CPU idle) + CPU-time spin monitor over the configuration matrix",
+    text="Runs the real engine over the enumerated product transport x epoll mode x sync/async x executor and sampled poller count, read-buffer size, per-loop read limit and peer patterns, with seeded delays at the async-read hand-over, and decides delivery (exactly once, in order, right connection, datagram boundaries) at quiescence, non-delivery by a stable stuck-state and idle spinning by CPU time. Exploration: schedules and configurations are sampled.",
+    note=TB + " One known finding (half-close with unread data) is listed in known_findings.json."),
+ "C04": dict(level="fault_enumeration", ref="4/C04",
+    technique="bounded-progress monitor: backlog created from a chosen origin, then 'complete (C01 stream oracle) or stable write stuck-state' (backlog accessor > 0, poll(POLLOUT) writable, peer FIONREAD 0, idle CPU, control connection on the same poller answering) on real sockets and under the syscall shim",
+    text="Creates a backlog from every origin the statement names (OnOpen before registration, the registration gap via a delay point, OnData, foreign goroutine, timer, another connection's OnClose) in every transport and epoll mode, then lets the peer read and makes no further call; liveness is restated as bounded progress and decided by a stable stuck-state predicate, never by elapsed time alone." + SHIM,
+    note=TB),
+ "C06": dict(level="exploration", ref="4/C06",
+    technique="differential monitor: the same parser fed in one piece vs. every single cut, cut pairs, byte-at-a-time and random cuts; recording Processor + real Server/ClientProcessor",
+    text="Grammar-generated request/response streams (pipelining, Content-Length, chunked with extensions and trailers, lenient spacing, malformed neighbours) are parsed in one piece and under exhaustive single cuts (plus pairs / byte-wise / random cuts); event sequence, delivered messages and error outcome must be identical. Exhaustive only over cut positions of the generated streams.",
+    note=TB),
+ "C07": dict(level="exploration", ref="4/C07",
+    technique="differential monitor against net/http (ReadRequest/ReadResponse) on generated well-formed messages, including message-boundary offsets",
+    text="Generated messages inside the agreed domain are parsed by nbio and by net/http; method, target, version, host, header multimap modulo OWS, body, trailers, close decision, status and boundary offset must agree.",
+    note=TB + " net/http is the trusted reference."),
+ "C08": dict(level="exploration", ref="4/C08",
+    technique="robustness monitors on random/mutated/attack inputs: captured recover() log lines, events-after-error, tracking allocators for carry-over and body bounds, framing-attack corpus, CPU-time hang detector",
+    text="Feeds random bytes, mutated valid messages and a framing-attack corpus in random segmentations under several ReadLimit/MaxHTTPBodySize settings; no recovered panic, nothing after the first error, retained bytes and body bytes within the configured bounds, malformed framing never yields a message.",
+    note=TB),
+ "C17": dict(level="fault_enumeration", ref="4/C17",
+    technique="model-based monitor: exact backlog model (accepted - bytes the shimmed kernel took) vs. accessor snapshots under the connection mutex after every call; writes placed at the bound; real-socket phase with a paused peer",
+    text="With the syscall shim giving the kernel room for exactly Budget bytes the true backlog is known, so writes are placed below, at and one byte above MaxWriteBufferSize across 40-300 fill/drain cycles per connection; counter == queued bytes == model, <= max, overflow only when it would exceed (and then the connection closes with ErrOverflow), fitting writes always accepted, full budget back after a drain; stream content re-checked with the C01 oracle.",
+    note=TB),
  "C20": dict(level="exploration", ref="4/C20",
     technique="reference-model monitor (shadow copies) + pairwise-disjointness sweeps over random allocator programs; race detector with //go:norace stripped (thorough)",
     text="Runs the real allocators (mempool.New variants, aligned, std, DefaultMemPool, TraceDebugger wrappers) under random Malloc/Append/AppendString/Realloc/Free programs, single-threaded and with 16 goroutines sharing one allocator, and checks every returned buffer against a shadow copy plus periodic whole-heap sweeps (contents and address-range disjointness). Exploration is the right level: the contract is over all operation sequences, which are sampled around every size-class boundary.",
